@@ -195,6 +195,17 @@ def _alter_observed(y: np.ndarray, obs: str, g) -> np.ndarray:
             m[-1:] = False
         y[m] = np.nan
         return y
+    if obs == "partnan2":
+        # the same number of blanked readings as "partnan", at other positions
+        y = y * 0.9
+        m = g.random(len(y)) < 0.2
+        if len(y) > 3:
+            m[:1] = False
+            m[-1:] = False
+            inner = m[1:-1].copy()
+            m[1:-1] = np.roll(inner, max(1, len(inner) // 3))
+        y[m] = np.nan
+        return y
     if obs == "allnan":
         return np.full(len(y), np.nan)
     return y
@@ -219,7 +230,8 @@ def build(recipe: dict):
     role = recipe["role"]
     first, n = _period(recipe)
     g = np.random.default_rng(_seed("data", recipe["mid"], role, first, n))
-    ga = np.random.default_rng(_seed("alter", rid(recipe)))
+    ga = np.random.default_rng(_seed("alter", rid(dict(recipe, obs="partnan" if recipe.get("obs") == "partnan2"
+                                                          else recipe.get("obs")))))
     # temperature gaps must not depend on how `observed` is altered (C05 pairs differ in observed only)
     gt = np.random.default_rng(_seed("tgap", recipe["mid"], first, n))
     defect = recipe.get("defect") if role == "baseline" else None
